@@ -157,33 +157,8 @@ theorem rule_unique_directives_per_location_iff (s : SchemaD) (fx : Fixes) (d : 
     cases n <;> simp only [fUniqueDirs, dupCount_nil_zero_iff] <;>
       exact h _ hn _ rfl
 
-def fSingleSub : Node → Nat
-  | .operation kind _ _ _ sels => if kind == "subscription" && sels.length != 1 then 1 else 0
-  | _ => 0
-
-private theorem singleSub_enter (s : SchemaD) (fx : Fixes) (n : Node) (ti : TI) (rs : RS) :
-    (enterRule s fx .singleFieldSubscriptions n ti rs).2 = false ∧
-    (enterRule s fx .singleFieldSubscriptions n ti rs).1.errs.length = rs.errs.length + fSingleSub n := by
-  cases n <;> simp [enterRule, fSingleSub, RS.err]
-  split <;> simp
-
-/-- **5.2.3.1 Single root field** (as implemented: exactly one top-level selection in a subscription) -/
-theorem rule_single_field_subscriptions_iff (s : SchemaD) (fx : Fixes) (d : Doc) :
-    Silent s fx .singleFieldSubscriptions d ↔ Spec.singleFieldSubscriptions d := by
-  have hL := leave_len s fx .singleFieldSubscriptions (by decide)
-  rw [silent_iff_nodes s fx .singleFieldSubscriptions fSingleSub d
-    (cf_of s fx _ _ (fun n ti rs _ => singleSub_enter s fx n ti rs) hL) (by intro ti rs; simp [enterRule]) rfl hL]
-  unfold Spec.singleFieldSubscriptions
-  constructor
-  · intro h n hn name vars dirs sels e
-    have := h n hn; subst e
-    simpa [fSingleSub] using this
-  · intro h n hn
-    cases n <;> simp only [fSingleSub]
-    rename_i kind name vars dirs sels
-    by_cases hk : kind = "subscription"
-    · subst hk; have := h _ hn _ _ _ _ rfl; simp [this]
-    · simp [hk]
+/-! `SingleFieldSubscriptionsChecker` (5.2.3.1): `Props/C06_doc.lean` (the rule reads the fragment table collected at the
+    document node) -/
 
 def fKnownTypes (s : SchemaD) : Node → Nat
   | .typeNode t => if (typeFromAst s t).isNone then 1 else 0
